@@ -73,11 +73,11 @@ TIES = {
                            ("C12", ["DsProofs.TieC.TIEC_fork", "DsProofs.TieC.TIEC_getitem"])]),
     "addops": dict(translator="translate_addops", targets=["GenD", "TieD"], audit="AuditTieD.lean", root="TieD", driver=None,
                    modules=["GenD.Ops", "TieD.Properties", "TieD.Reach"],
-                   what="ADD.restrict, ADD.modelcount, ADD.sum, ADD.concatenate, ADD.stack, ADD.get_update_location, ADD.update, ADD.construct_chain, ShapleyOracle.__init__, ShapleyOracle.query (harness/translate_addops.py -> lean/GenD/Ops.lean)",
+                   what="ADD.restrict, ADD.modelcount, ADD.sum, ADD.concatenate, ADD.stack, ADD.get_update_location, ADD.update, ADD.construct_chain, oracle.compile (all but its graph routines), ShapleyOracle.__init__, ShapleyOracle.query (harness/translate_addops.py -> lean/GenD/Ops.lean)",
                    reg=[("C10", ["DsProofs.TieD.TIED_restrict", "DsProofs.TieD.TIED_modelcount", "DsProofs.TieD.TIED_restrict_reach", "DsProofs.TieD.TIED_modelcount_reach",
                                  "DsProofs.TieD.reach_shape", "DsProofs.TieD.TIED_sum", "DsProofs.TieD.TIED_update", "DsProofs.TieD.TIED_chain", "DsProofs.TieD.TIED_concat", "DsProofs.TieD.TIED_stack", "DsProofs.TieD.TIED_getloc"]),
-                        ("C09", ["DsProofs.TieD.TIED_query", "DsProofs.TieD.TIED_init", "DsProofs.TieD.TIED_restrict_reach", "DsProofs.TieD.TIED_modelcount_reach", "DsProofs.TieD.TIED_sum", "DsProofs.TieD.TIED_concat", "DsProofs.TieD.TIED_stack", "DsProofs.TieD.TIED_getloc"]),
-                        ("C02", ["DsProofs.TieD.TIED_query"])]),
+                        ("C09", ["DsProofs.TieD.TIED_query", "DsProofs.TieD.TIED_init", "DsProofs.TieD.TIED_restrict_reach", "DsProofs.TieD.TIED_modelcount_reach", "DsProofs.TieD.TIED_sum", "DsProofs.TieD.TIED_concat", "DsProofs.TieD.TIED_stack", "DsProofs.TieD.TIED_getloc", "DsProofs.TieD.TIED_compile"]),
+                        ("C02", ["DsProofs.TieD.TIED_query", "DsProofs.TieD.TIED_compile"])]),
     "exprops": dict(translator="translate_expr", targets=["GenE", "TieE"], audit="AuditTieE.lean", root="TieE", driver=None,
                     modules=["GenE.Ops", "TieE.Properties"],
                     what="the operators & and | of Equality / Conjunction / Disjunction, 18 branches (harness/translate_expr.py -> lean/GenE/Ops.lean)",
@@ -319,6 +319,15 @@ def tie_build(name="kernel", timeout=1800):
     problems, axioms, report = [], {}, {}
     t0 = time.time()
     try:
+        if not _TIE_CACHE.get("_all_written"):
+            # every generated file is brought up to date with /repo first: libraries of one tie import generated text of another (TieI -> TieC -> GenC), and a file left over
+            # from a run against another tree must never be compiled
+            _TIE_CACHE["_all_written"] = True
+            for other in TIES.values():
+                try:
+                    importlib.import_module(other["translator"]).write()
+                except Exception:  # noqa
+                    pass          # reported by the tie that owns the translator
         try:
             report = tr.write()
         except Exception as e:  # noqa
